@@ -264,6 +264,8 @@ pub struct World {
     /// all transactions ever generated (pool of candidates to propose/commit on any branch)
     pub txs: Vec<MTx>,
     pub tx_by_id: BTreeMap<ProposalShortId, usize>,
+    /// planted gadget transactions by name (index into `txs`)
+    pub planted: BTreeMap<String, usize>,
 }
 
 /// What to put into a new block.
@@ -285,6 +287,14 @@ pub struct Recipe {
     pub seed: u64,
     /// deliberate single-rule mutation (block becomes invalid); see `mutate`
     pub mutation: Option<String>,
+    /// explicit directives for planted gadgets (executed only when the context makes them legal):
+    /// "tx_since:<name>:<k>" create a transaction locked until block number + k;
+    /// "propose:<name>", "commit:<name>" (only if valid here), "commit_immature:<name>" (only if its
+    /// time lock is the ONLY thing in the way: the block becomes invalid);
+    /// "uncle_ok:<block idx>" (only if a legal uncle here), "uncle_bad:<block idx>" (only if its
+    /// parent is neither on this chain nor an included uncle: the block becomes invalid)
+    #[serde(default, skip_serializing_if = "Vec::is_empty")]
+    pub plant: Vec<String>,
 }
 
 pub fn always_failure_bin() -> Bytes {
@@ -542,6 +552,7 @@ impl World {
             dao_type_hash,
             txs: Vec::new(),
             tx_by_id: BTreeMap::new(),
+            planted: BTreeMap::new(),
         }
     }
 
@@ -888,8 +899,11 @@ impl World {
                 continue;
             }
             let mut tb = TransactionBuilder::default().cell_dep(self.code_dep.clone());
-            for (op, _) in &ins {
-                tb = tb.input(CellInput::new(op.clone(), 0));
+            // one transaction in four carries an absolute block-number time lock a few blocks ahead:
+            // it may be committed only in a block whose number has reached it (on whatever branch)
+            let since: u64 = if rng.chance(1, 4) { number + rng.range(0, 6) } else { 0 };
+            for (k, (op, _)) in ins.iter().enumerate() {
+                tb = tb.input(CellInput::new(op.clone(), if k == 0 { since } else { 0 }));
             }
             for (o, d) in outs {
                 tb = tb.output(o).output_data(d);
@@ -1007,6 +1021,11 @@ impl World {
                         .map(|c| self.mature(c, frac))
                         .unwrap_or(false)
                 });
+                let since_ok = t.tx.inputs().into_iter().all(|i| {
+                    let sv: u64 = i.since().into();
+                    sv == 0 || (sv >> 56 == 0 && number >= sv)
+                });
+                let ok = ok && since_ok;
                 let deps_ok = t.tx.cell_deps().into_iter().all(|d| cells.contains_key(&d.out_point()))
                     && t.tx.header_deps().into_iter().all(|h| {
                         self.by_hash.get(&h).map(|i| pst.chain.get(self.blocks[*i].number as usize) == Some(i)).unwrap_or(false)
@@ -1043,6 +1062,86 @@ impl World {
             }
         }
 
+        // --- planted gadget directives
+        let mut planted_invalid: Option<&'static str> = None;
+        for d in recipe.plant.clone() {
+            let parts: Vec<&str> = d.split(':').collect();
+            match parts.as_slice() {
+                ["tx_since", name, k] => {
+                    let k: u64 = k.parse().unwrap_or(0);
+                    let pick = pst.cells.iter().find(|(op, c)| {
+                        c.output.lock().code_hash() == self.code_hash && c.output.type_().is_none() && op.tx_hash() != self.blocks[0].view.transactions()[0].hash() && c.capacity() >= 500 * SHANNONS && !(c.is_cellbase() && c.block_number > 0)
+                    });
+                    if let Some((op, c)) = pick {
+                        let fee = 1_500;
+                        let out = CellOutput::new_builder().lock(self.lock(&[0x51, 0xce])).capacity(Capacity::shannons(c.capacity() - fee)).build();
+                        let tx = TransactionBuilder::default()
+                            .cell_dep(self.code_dep.clone())
+                            .input(CellInput::new(op.clone(), number + k))
+                            .output(out)
+                            .output_data(Bytes::new())
+                            .witness(Bytes::from(name.as_bytes().to_vec()).pack())
+                            .build();
+                        let idx = self.add_tx(tx, fee);
+                        self.planted.insert(name.to_string(), idx);
+                    }
+                }
+                ["propose", name] => {
+                    if let Some(ti) = self.planted.get(*name) {
+                        let id = self.txs[*ti].id.clone();
+                        if !proposals.contains(&id) {
+                            proposals.push(id);
+                        }
+                    }
+                }
+                ["commit", name] | ["commit_immature", name] => {
+                    if let Some(ti) = self.planted.get(*name).cloned() {
+                        let t = &self.txs[ti];
+                        let in_win = win.contains(&t.id) && !pst.txs.contains_key(&t.tx.hash()) && !commits.contains(&ti) && number > self.cfg.w_close;
+                        let live = t.tx.inputs().into_iter().all(|i| cells.get(&i.previous_output()).map(|c| self.mature(c, frac)).unwrap_or(false));
+                        let locked = t.tx.inputs().into_iter().any(|i| {
+                            let sv: u64 = i.since().into();
+                            sv != 0 && number < sv
+                        });
+                        let want_bad = parts[0] == "commit_immature";
+                        if in_win && live && locked == want_bad {
+                            for i in t.tx.inputs().into_iter() {
+                                cells.remove(&i.previous_output());
+                            }
+                            commits.push(ti);
+                            if want_bad {
+                                planted_invalid = Some("structural:commit_immature_since");
+                            }
+                        }
+                    }
+                }
+                ["uncle_ok", idx] | ["uncle_bad", idx] => {
+                    if let Ok(bi) = idx.parse::<usize>() {
+                        if bi < self.blocks.len() && uncles.len() < MAX_UNCLES {
+                            let legal = self.uncle_candidates(&pst, &ep, number).contains(&bi);
+                            let b = &self.blocks[bi];
+                            let on_chain: BTreeSet<usize> = pst.chain.iter().cloned().collect();
+                            let only_parent_missing = b.number > 0
+                                && b.number < number
+                                && !on_chain.contains(&bi)
+                                && b.invalid.is_none()
+                                && b.epoch.number == ep.number
+                                && b.view.compact_target() == ep.compact
+                                && !pst.uncles.contains(&b.view.hash())
+                                && b.parent.map(|p| !on_chain.contains(&p) && !pst.uncles.contains(&self.blocks[p].view.hash())).unwrap_or(false);
+                            if parts[0] == "uncle_ok" && legal {
+                                uncles.push(b.view.as_uncle());
+                            } else if parts[0] == "uncle_bad" && only_parent_missing {
+                                uncles.push(b.view.as_uncle());
+                                planted_invalid = Some("structural:uncle_unknown_parent");
+                            }
+                        }
+                    }
+                }
+                _ => {}
+            }
+        }
+
         // --- structural single-rule mutations (uncle rules, two-phase commit): applied only when
         // the context offers the material, otherwise the block stays valid
         let mut recipe = recipe.clone();
@@ -1074,6 +1173,49 @@ impl World {
                     structural = Some("structural:uncle_double_inclusion");
                 }
             }
+            Some("uncle_unknown_parent") => {
+                // a block of this epoch whose parent is neither on this chain nor an uncle this chain included
+                let on_chain: BTreeSet<usize> = pst.chain.iter().cloned().collect();
+                let cand = self.blocks.iter().find(|b| {
+                    b.number > 1
+                        && b.number < number
+                        && !on_chain.contains(&b.idx)
+                        && b.invalid.is_none()
+                        && b.epoch.number == ep.number
+                        && b.view.compact_target() == ep.compact
+                        && !pst.uncles.contains(&b.view.hash())
+                        && b.parent.map(|p| !on_chain.contains(&p) && !pst.uncles.contains(&self.blocks[p].view.hash())).unwrap_or(false)
+                });
+                if let Some(b) = cand {
+                    uncles = vec![b.view.as_uncle()];
+                    structural = Some("structural:uncle_unknown_parent");
+                }
+            }
+            Some("commit_immature_since") => {
+                // proposed in the window, inputs live and mature, but its absolute time lock is still ahead
+                let mut extra: Option<usize> = None;
+                for ti in order.iter() {
+                    let t = &self.txs[*ti];
+                    if !win.contains(&t.id) || pst.txs.contains_key(&t.tx.hash()) || commits.contains(ti) {
+                        continue;
+                    }
+                    let locked = t.tx.inputs().into_iter().any(|i| {
+                        let sv: u64 = i.since().into();
+                        sv != 0 && sv >> 56 == 0 && number < sv
+                    });
+                    let ok = t.tx.inputs().into_iter().all(|i| cells.get(&i.previous_output()).map(|c| self.mature(c, frac)).unwrap_or(false))
+                        && t.tx.cell_deps().into_iter().all(|d| cells.contains_key(&d.out_point()))
+                        && t.tx.header_deps().is_empty();
+                    if locked && ok {
+                        extra = Some(*ti);
+                        break;
+                    }
+                }
+                if let Some(ti) = extra {
+                    commits.push(ti);
+                    structural = Some("structural:commit_immature_since");
+                }
+            }
             Some("commit_unproposed") => {
                 // a transaction whose inputs are live and mature but whose id is not in the window
                 let mut extra: Option<usize> = None;
@@ -1097,8 +1239,11 @@ impl World {
             }
             _ => {}
         }
-        if matches!(recipe.mutation.as_deref(), Some("uncle_sibling" | "uncle_duplicate" | "uncle_double_inclusion" | "commit_unproposed")) {
+        if matches!(recipe.mutation.as_deref(), Some("uncle_sibling" | "uncle_duplicate" | "uncle_double_inclusion" | "commit_unproposed" | "uncle_unknown_parent" | "commit_immature_since")) {
             recipe.mutation = structural.map(|s| s.to_string());
+        }
+        if recipe.mutation.is_none() {
+            recipe.mutation = planted_invalid.map(|s| s.to_string());
         }
         let committed: Vec<MTx> = commits.iter().map(|i| self.txs[*i].clone()).collect();
         self.assemble(parent, &pst, ep, ts, &recipe, committed, proposals, uncles)
@@ -1111,7 +1256,7 @@ impl World {
         let ep = self.next_epoch(&pst);
         let median = self.median_time(&pst.chain);
         let ts = (pblock.view.timestamp() + ts_delta).max(median + 1);
-        let recipe = Recipe { ts_delta, miner: 2, new_txs: 0, propose: 0, commit: 0, uncles: 0, ext_extra: 0, seed, mutation: None };
+        let recipe = Recipe { ts_delta, miner: 2, new_txs: 0, propose: 0, commit: 0, uncles: 0, ext_extra: 0, seed, mutation: None, plant: Vec::new() };
         self.assemble(parent, &pst, ep, ts, &recipe, committed, proposals, Vec::new())
     }
 
